@@ -91,4 +91,57 @@ theorem flatInsert_none (S : Schema) (ins level : List Node) (d idx : Nat) :
   unfold flatInsert
   split <;> simp_all
 
+/-! ### `Slice.insertAt`: the bound `pos ≤ size` comes first -/
+
+/-- the body of `Slice.insertAt` behind its bound test -/
+def Slice.insertAtIn (S : Schema) (sl : Slice) (pos : Nat) (frag : List Node) : Res (Option Slice) :=
+  match insertInto S frag none sl.content (pos + sl.openStart) 0 sl.content (pos + sl.openStart)
+      sl.openStart sl.openEnd with
+  | .ok (some c) => .ok (some ⟨c, sl.openStart, sl.openEnd⟩)
+  | .ok none => .ok none
+  | .error e => .error e
+
+theorem insertAt_of_le {S : Schema} {sl : Slice} {pos : Nat} {frag : List Node} (h : (pos : Int) ≤ sl.size) :
+    sl.insertAt S pos frag = sl.insertAtIn S pos frag := by
+  unfold Slice.insertAt Slice.insertAtIn
+  rw [if_neg (by omega)]
+  split <;> simp_all
+
+theorem insertAt_of_gt {S : Schema} {sl : Slice} {pos : Nat} {frag : List Node} (h : sl.size < (pos : Int)) :
+    sl.insertAt S pos frag = .ok none := by
+  unfold Slice.insertAt
+  rw [if_pos h]
+
+/-- a successful `insert_at` was inside the slice and went through `insert_into` -/
+theorem insertAt_ok {S : Schema} {sl x : Slice} {pos : Nat} {frag : List Node}
+    (h : sl.insertAt S pos frag = .ok (some x)) :
+    (pos : Int) ≤ sl.size ∧ ∃ c, insertInto S frag none sl.content (pos + sl.openStart) 0 sl.content
+      (pos + sl.openStart) sl.openStart sl.openEnd = .ok (some c) ∧ x = ⟨c, sl.openStart, sl.openEnd⟩ := by
+  unfold Slice.insertAt at h
+  split at h
+  · simp at h
+  · rename_i hle
+    refine ⟨by omega, ?_⟩
+    split at h
+    · rename_i c hc
+      simp only [Except.ok.injEq, Option.some.injEq] at h
+      exact ⟨c, hc, h.symm⟩
+    · simp at h
+    · simp at h
+
+theorem insertAt_error {S : Schema} {sl : Slice} {pos : Nat} {frag : List Node} {e : Err}
+    (h : sl.insertAt S pos frag = .error e) :
+    insertInto S frag none sl.content (pos + sl.openStart) 0 sl.content (pos + sl.openStart)
+      sl.openStart sl.openEnd = .error e := by
+  unfold Slice.insertAt at h
+  split at h
+  · simp at h
+  · split at h
+    · simp at h
+    · simp at h
+    · rename_i e' he
+      simp only [Except.error.injEq] at h
+      subst h
+      exact he
+
 end PM
